@@ -700,7 +700,7 @@ NoRetVerdict(c) == IF c.tgt = "empty" THEN "accept" ELSE "reject"       \* (T11)
 
 -----------------------------------------------------------------------------
 (* 7. The call family: arity, overload choice, user overloads of write      *)
-ParamU == IF Quick THEN {"int", "byte", "string", "const byte[]", "int[]", "const int[]"}
+ParamU == IF Quick THEN {"int", "byte", "string", "byte[]", "const byte[]", "int[]", "const int[]"}
           ELSE Scalars \cup {ArrM(e) : e \in Scalars} \cup {ArrC(e) : e \in Scalars}
 ArgU == A0 \cup
     {N2("add", N0("b"), N0("b")), N2("add", N0("5"), N0("5")), N2("add", N0("i"), N0("b")), N1("neg", N0("b")),
